@@ -22,7 +22,7 @@ CLAIMED = {
          "Design: the per-core collapse rule on a scaled hierarchy selects exactly the added cores once, for every insertion order (65k states). Conformance: every (region, core mask) list rig returns is judged by covering + counting, strict order and well-formedness.",
          "Trusted: TLC, Json override, the region-word meaning written in Regions.tla from 'Managing Big SpiNNaker Machines' as quoted in regions.py; word -> 4 bytes encoding in the harness.",
          "DESIGN.md §6 C12"),
- "C05": ("TLA+ spec Allocate + AllocateDesign (the greedy scan as coded; soundness, progress, termination under fairness, completeness; TLC exhaustive) + TLC trace validation of every range allocate() grants (AllocateTrace.tla)",
+ "C05": ("TLA+ spec Allocate + AllocateScan/AllocateDesign (the greedy scan as coded; soundness, progress, termination under fairness, completeness; TLC exhaustive) + AllocateInd (Apalache: inductive invariant of the scan for unbounded capacity, sizes and alignment; a wrong scan refuted) + TLC trace validation of every range allocate() grants (AllocateTrace.tla), incl. resources counted beyond 2^53 / 2^60 units",
          "Design: TLC explores the scan for every reservation layout/order, request sequence and alignment at small constants, including liveness. Conformance: each call of allocate() is a trace (grant events, then ok/raise) with Size/InRange/OnAlignment/Unreserved/Disjoint/Once/AllGranted/OnlyDocumentedError/Complete clauses evaluated by TLC.",
          "Trusted: TLC, Json override, the projection of constraints and results into the trace in harness/props/c05.py. Completeness is judged only for non-overlapping end reservations without alignment (the property's own precondition).",
          "DESIGN.md §6 C05"),
@@ -54,11 +54,11 @@ CLAIMED = {
          "Design: every (address, length) in a 12-24 byte window x buffer sizes x window sizes, replies completing in any order, ByteExact / ChunksLegal / NothingElseTouched / termination. Conformance: real MachineController + SCPConnection against the simulated machine under lost / duplicated / late datagrams: read, write, fill, sv struct fields, per-core fields, link reads/writes; clauses WithinBuffer, AccessTypeAllowed, LinkWholeWords, CoversExactly, ReturnsStoredBytes, StoresGivenBytes, Env* (the simulator is validated against the model).",
          "Trusted: TLC, harness/env/spinnaker_sim.py as environment (cross-checked by EnvReadReturnsMemory / EnvFinalMemory / EnvBlockBase), the struct table parsed independently from sark.struct.",
          "DESIGN.md §6 C07"),
- "C08": ("TLA+ specs BitField (scopes, co-presence, layout predicates) + BitFieldDesign (permissive post-condition vs first-fit algorithm; as-coded and cross-scope variants refuted) + BitFieldTrace validating full observable tables of real BitField histories",
+ "C08": ("TLA+ specs BitField (scopes, co-presence, layout predicates) + BitFieldDesign (permissive post-condition vs first-fit algorithm; as-coded and cross-scope variants refuted) + BitFieldTrace validating full observable tables of real BitField histories + job R: definition histories chosen by TLC's simulator (BitFieldSim) replayed call by call on real BitFields and judged by BitFieldReplayTrace (accepted/refused as predicted, layout among the allowed layouts)",
          "Design: NoOverlap / WideEnough / Refines / success guarantee at length 4; the scan range as rig coded it violates SuccessFirstFit (fixed in repo); cross-scope first-fit fragmentation refuted (known finding). Conformance: exhaustive small-scope and random histories; clauses NoOverlap, WideEnough, ReadBack, MaskIsUnion, TagsClosed, KeysDistinct, RejectsBadExplicit, MustSucceed*.",
          "Trusted: TLC, table extraction in harness/props/c08.py. Bit fields up to 32 bits. Two known findings are listed in known_findings.json.",
          "DESIGN.md §6 C08"),
- "C09": ("TLA+ specs LoadApp (flood-fill packets, receiver rules; extends Regions) + LoadAppDesign (client retry loop x per-chip receivers, packet by packet; count-mode and overwrite variants refuted) + LoadAppTrace validating real load_application runs against the simulated machine",
+ "C09": ("TLA+ specs LoadApp (flood-fill packets, receiver rules; extends Regions) + LoadAppDesign (client retry loop x per-chip receivers, packet by packet; count-mode and overwrite variants refuted) + LoadAppTrace validating real load_application runs against the simulated machine + job R: scenarios and miss schedules chosen by TLC's simulator (LoadAppSim) replayed through the real loader and judged by LoadAppReplayTrace (outcome, attempts, cores addressed, state after each attempt as the design predicts)",
          "Design: every assignment / miss pattern / n_tries / mode at 2 chips x 2 cores (0.1-3 M states, incl. termination). Conformance: exhaustive miss schedules at small scope + random; 30+ clauses incl. StartAnnouncesBlocks, BlocksConsecutive, ImageReassembles, SelectsExactTargets, RetriesOnlyMissing, ReturnedMeansAllLoaded, RaisedNamesExactlyMissing, SimulatorCommitMatchesModel.",
          "Trusted: TLC, simulator as environment (validated by Simulator* clauses). Assumptions: whole-word binaries < 256 blocks; use_count only without foreign waiting cores (its documented precondition, refuted otherwise in the design job); reloading over a waiting core is outside the domain.",
          "DESIGN.md §6 C09"),
@@ -70,7 +70,7 @@ CLAIMED = {
          "Design: HistoryIndependent and MechanismImpliesIndependence for the fault-free library, each injected fault violates exactly its clause. Conformance: histories of 3-8 real library calls per child process with deep before/after digests of every argument, of all 23 mutable default arguments and of the ring memo; the probe call is re-run first in a fresh interpreter (FreshAgrees).",
          "Trusted: TLC, the canonical digest encoding (round-trip self-tested), PYTHONHASHSEED=0. TLA+ is used here as a uniform clause evaluator over digests; the model is small by nature (DESIGN.md §7).",
          "DESIGN.md §6 C17"),
- "C18": ("TLA+ specs Context (Resolved / Lacking; extends Spinn5 for the connection choice) + ContextDesign (stack discipline, application blocks; pop-first variant refuted) + ContextTrace validating every datagram of every decorated MachineController / BMPController method under nested contexts",
+ "C18": ("TLA+ specs Context (Resolved / Lacking; extends Spinn5 for the connection choice) + ContextDesign (stack discipline, application blocks; pop-first variant refuted) + ContextTrace validating every datagram of every decorated MachineController / BMPController method under nested contexts + job R: programs chosen by TLC's simulator over the real method signatures (ContextSim) replayed on the real controllers and judged by ContextReplayTrace (MatchesPrediction)",
          "Design: 0.17-0.76 M states: MergedAgrees, MechanismAgrees, ExitRestores, StopsOwnApp. Conformance: 42 + 7 methods found by introspection, arguments passed positionally / by keyword / from nested contexts / by default, exits by exception, discovered connections; clauses ResolvedX/Y/P/AppId, RequiredRejectedBeforeSend, NothingSentOnReject, ExitRestores, ApplicationExitStops, RightConnection.",
          "Trusted: TLC, the datagram decoder of the fake machine in harness/props/c18.py. Five known findings (context core leaking into internal reads of five methods) are listed in known_findings.json.",
          "DESIGN.md §6 C18"),
